@@ -414,15 +414,20 @@ fn parse_delivery(s: &str) -> Option<Delivery> {
         x => x.strip_prefix("split")?.parse().ok().map(Delivery::Split),
     }
 }
+/// fault code: Some(j) = the cache closes the connection after j PDUs (EOF at the client);
+/// Some(j | RESET) = after j PDUs the client's read fails (connection reset) instead
+const RESET: usize = 1 << 20;
 fn fault_str(f: Option<usize>) -> String {
     match f {
         None => "nofault".into(),
+        Some(j) if j & RESET != 0 => format!("reset{}", j & !RESET),
         Some(j) => format!("close{j}"),
     }
 }
 fn parse_fault(s: &str) -> Option<Option<usize>> {
     match s {
         "nofault" => Some(None),
+        x if x.starts_with("reset") => x.strip_prefix("reset")?.parse::<usize>().ok().map(|j| Some(j | RESET)),
         x => x.strip_prefix("close")?.parse().ok().map(Some),
     }
 }
@@ -489,6 +494,8 @@ struct IoStat {
     bytes_read: AtomicUsize,
     reads: AtomicUsize,
     parked: AtomicBool,
+    /// the next read fails with ConnectionReset (set by the harness before it drops its end)
+    fail: AtomicBool,
 }
 
 struct Tap {
@@ -498,6 +505,10 @@ struct Tap {
 
 impl AsyncRead for Tap {
     fn poll_read(mut self: Pin<&mut Self>, cx: &mut Context<'_>, buf: &mut ReadBuf<'_>) -> Poll<std::io::Result<()>> {
+        if self.st.fail.load(Ordering::SeqCst) {
+            self.st.parked.store(false, Ordering::SeqCst);
+            return Poll::Ready(Err(std::io::Error::new(std::io::ErrorKind::ConnectionReset, "connection reset by peer")));
+        }
         let before = buf.filled().len();
         let r = Pin::new(&mut self.inner).poll_read(cx, buf);
         match &r {
@@ -720,7 +731,11 @@ impl World {
             return;
         }
         self.drain(i);
-        self.actors[i].io = None; // drop => EOF at the client
+        if self.actors[i].fault.is_some_and(|j| j & RESET != 0) {
+            // the session does not end by a clean EOF: the client's pending read fails
+            self.actors[i].st.fail.store(true, Ordering::SeqCst);
+        }
+        self.actors[i].io = None; // drop => the client's read is woken (EOF, or the error armed above)
         let mut n = 0u64;
         loop {
             match self.actors[i].handle.as_ref() {
@@ -1055,7 +1070,7 @@ impl World {
             }
         }
         let sent_n = self.actors[i].sent.len();
-        let budget = self.actors[i].fault.map(|j| j.saturating_sub(sent_n));
+        let budget = self.actors[i].fault.map(|j| (j & !RESET).saturating_sub(sent_n));
         if self.actors[i].next_seg >= self.actors[i].segs.len() || budget == Some(0) {
             self.close(i).await;
             return;
@@ -1629,6 +1644,11 @@ fn variants(l: &Layout, mode: Mode) -> Vec<(Delivery, Option<usize>)> {
     let mut fs: Vec<Option<usize>> = vec![None];
     if faults {
         fs.extend((0..n).map(Some));
+    }
+    // the same close points once more with the session ending in a read error instead of EOF
+    let resets: Vec<Option<usize>> = if faults { (0..n).map(|j| Some(j | RESET)).collect() } else { vec![] };
+    for f in &resets {
+        out.push((Delivery::Whole, *f));
     }
     for f in fs {
         let close_off = match f {
